@@ -34,8 +34,17 @@ def _(repo):
 def _(repo):
     s = _src(repo, "ragc-core/src/agc_compressor.rs")
     body = fn_body(s, "push")
-    ok = re.search(r"sample_priority:\s*current_priority\s*,", body) is not None \
-        and re.search(r"new_priority\s*\+\s*1_000_000", body) is None
+    direct = re.search(r"sample_priority:\s*current_priority\s*,", body) is not None
+    # the token literal may live in a private helper that receives the priority as an argument
+    via_helper = False
+    for m in re.finditer(r"\b(\w+)\(([^;{}]*\bcurrent_priority\b[^;{}]*)\)", body):
+        try:
+            hb = fn_body(s, m.group(1))
+        except Miss:
+            continue
+        if re.search(r"is_sync_token\s*:\s*true", hb) and re.search(r"\bsample_priority\b\s*(,|:\s*sample_priority)", hb):
+            via_helper = True
+    ok = (direct or via_helper) and re.search(r"new_priority\s*\+\s*1_000_000", body) is None
     return _bool("tok_prio_is_current", ok)
 
 
